@@ -94,7 +94,9 @@ def report(ctx, sr, g, t, pred, og):
 
 
 def stream(ctx, grammars, sr, hashseed):
-    res = TR.run_transforms(grammars, sr, [None] * len(grammars), ctx.rng, hashseed=hashseed, with_values=False)
+    # cfg[X].trim() for every other nonterminal X, after the parent grammar has been trimmed (shared caches)
+    extra = lambda g: [("sub_trim", X) for X in M.nts_of(g) if X != g["S"]][:3]
+    res = TR.run_transforms(grammars, sr, [None] * len(grammars), ctx.rng, hashseed=hashseed, with_values=False, extra=extra)
     exprs, meta = [], []
     for g, rs in zip(grammars, res):
         for f in M.features(g):
